@@ -71,6 +71,10 @@ STATIC = [
      "decls": [d("CONFigure:RANGe", "range", ["u8"]), d("CONFigure:RANGe?", "rangeq"), d("MEASure?", "meas", ret="f32"), d("*WAI", "wai")]},
     {"mod": "s16_helpers_std", "flags": ["StandardCommands"], "helpers": {0: 3, 2: 2}, "decls": [d("A:B", "ab"), d("A:B?", "abq")]},
     {"mod": "s17_helpers_err", "flags": ["ErrorCommands"], "helpers": {0: 1, 1: 4}, "decls": [d("X", "x"), d("Y?", "yq"), d("[Z]:W", "zw")]},
+    # declarations written with empty levels (leading colon of the manual's notation, doubled or trailing colon) and with
+    # blanks around the levels: the macro skips / trims them
+    {"mod": "s19_empty_levels", "flags": ["StandardCommands"], "decls": [d(":SYSTem:BEEPer:[IMMediate]", "beep"), d("OUTPut::STATe?", "outq"),
+                                                                           d("CONFigure:RANGe:", "conf", ["u8"]), d(" MEASure : VOLTage ?", "measq"), d(":*TRG", "trg")]},
     # the options of the attribute in the other order: what is requested must not depend on the order it is requested in
     {"mod": "s18_flag_order", "flags": ["ErrorCommands", "StandardCommands"], "decls": [d("USER:CMD", "u"), d("OTHer?", "o")]},
 ]
